@@ -53,20 +53,20 @@ def Cluster.Plain (cl : Cluster) : Prop := cl.plc.net = .ok ∧ cl.plc.ecRules =
 
 /-- SAFETY of one turn: whatever the pass of `me` replicates and whether or not it drops its own copy, every rule
 that was covered stays covered (nodes may be down, answers may be errors). -/
-theorem pass_keeps_covered (cl : Cluster) (hp : cl.Plain) (down : List Nat) (me : Nat)
+theorem pass_keeps_covered (cl : Cluster) (hp : cl.Plain) (down mt : List Nat) (me : Nat)
     (v : List Nat × Nat) (hv : v ∈ effVectors { typ := cl.typ } cl.plc) (hc : Covered cl.typ cl.hold v) :
-    Covered cl.typ (holdersAfter cl.hold me (passOf cl down me)) v := by
+    Covered cl.typ (holdersAfter cl.hold me (passOf cl down mt me)) v := by
   obtain ⟨D, nd, len, ok⟩ := hc
-  have hproc : passOf cl down me = repPart (clusterEnv down cl.hold me) false { typ := cl.typ } cl.plc [] :=
+  have hproc : passOf cl down mt me = repPart (clusterEnv down mt cl.hold me) false { typ := cl.typ } cl.plc [] :=
     processObject_rep _ _ _ _ hp.1 rfl hp.2
-  rcases repPart_dels (clusterEnv down cl.hold me) false { typ := cl.typ } cl.plc with hd | hd
+  rcases repPart_dels (clusterEnv down mt cl.hold me) false { typ := cl.typ } cl.plc with hd | hd
   · -- nothing deleted: the holders only grow
     refine ⟨D, nd, len, fun n hn => ⟨(ok n hn).1, ?_⟩⟩
     rw [mem_holdersAfter]
     exact ⟨Or.inr (ok n hn).2, Or.inl (by rw [hproc, hd]; rfl)⟩
   · -- the local copy was dropped as redundant: C26 applies
-    have hred : Mark.redundant ∈ (processObject (clusterEnv down cl.hold me) false { typ := cl.typ } cl.plc).dels := by
-      have : passOf cl down me = processObject (clusterEnv down cl.hold me) false { typ := cl.typ } cl.plc := rfl
+    have hred : Mark.redundant ∈ (processObject (clusterEnv down mt cl.hold me) false { typ := cl.typ } cl.plc).dels := by
+      have : passOf cl down mt me = processObject (clusterEnv down mt cl.hold me) false { typ := cl.typ } cl.plc := rfl
       rw [← this, hproc, hd]; simp
     have safe := drop_implies_confirmed _ _ _ hred
     unfold Safe at safe
@@ -79,70 +79,70 @@ theorem pass_keeps_covered (cl : Cluster) (hp : cl.Plain) (down : List Nat) (me 
       refine ⟨Or.inr ?_, Or.inr hne⟩
       -- a truthful `holds` answer comes from a holder
       simp only [clusterEnv] at hans
-      split_ifs at hans with h1 h2
-      simpa using h2
+      split_ifs at hans with h1 h2 h3
+      simpa using h3
     · refine ⟨D, nd, len, fun n hn => ⟨(ok n hn).1, ?_⟩⟩
       rw [mem_holdersAfter]
       exact ⟨Or.inr (ok n hn).2, Or.inr (fun h => hm (h ▸ (ok n hn).1))⟩
 
-theorem turn_plc (down : List Nat) (acc : Cluster × Nat × List Nat) (me : Nat) :
-    (turn down acc me).1.plc = acc.1.plc ∧ (turn down acc me).1.typ = acc.1.typ := by
+theorem turn_plc (down mt : List Nat) (acc : Cluster × Nat × List Nat) (me : Nat) :
+    (turn down mt acc me).1.plc = acc.1.plc ∧ (turn down mt acc me).1.typ = acc.1.typ := by
   unfold turn
   simp only
   split_ifs <;> exact ⟨rfl, rfl⟩
 
 /-- SAFETY of any sequence of turns. -/
-theorem turns_keep_covered (down : List Nat) (order : List Nat) (cl : Cluster) (hp : cl.Plain) (z : Nat × List Nat)
+theorem turns_keep_covered (down mt : List Nat) (order : List Nat) (cl : Cluster) (hp : cl.Plain) (z : Nat × List Nat)
     (v : List Nat × Nat) (hv : v ∈ effVectors { typ := cl.typ } cl.plc) (hc : Covered cl.typ cl.hold v) :
-    (order.foldl (turn down) (cl, z)).1.Plain ∧ (order.foldl (turn down) (cl, z)).1.plc = cl.plc ∧
-      (order.foldl (turn down) (cl, z)).1.typ = cl.typ ∧ Covered cl.typ (order.foldl (turn down) (cl, z)).1.hold v := by
+    (order.foldl (turn down mt) (cl, z)).1.Plain ∧ (order.foldl (turn down mt) (cl, z)).1.plc = cl.plc ∧
+      (order.foldl (turn down mt) (cl, z)).1.typ = cl.typ ∧ Covered cl.typ (order.foldl (turn down mt) (cl, z)).1.hold v := by
   induction order generalizing cl z with
   | nil => exact ⟨hp, rfl, rfl, hc⟩
   | cons me rest ih =>
     simp only [List.foldl_cons]
-    have tp := turn_plc down (cl, z) me
-    have hp' : (turn down (cl, z) me).1.Plain := by
+    have tp := turn_plc down mt (cl, z) me
+    have hp' : (turn down mt (cl, z) me).1.Plain := by
       unfold Cluster.Plain; rw [tp.1]; exact hp
-    have hc' : Covered cl.typ (turn down (cl, z) me).1.hold v := by
-      by_cases hs : (!cl.hold.contains me || down.contains me) = true
-      · have : turn down (cl, z) me = (cl, z) := by simp only [turn, hs, if_true]
+    have hc' : Covered cl.typ (turn down mt (cl, z) me).1.hold v := by
+      by_cases hs : (!cl.hold.contains me || down.contains me || mt.contains me) = true
+      · have : turn down mt (cl, z) me = (cl, z) := by simp only [turn, hs, if_true]
         rw [this]; exact hc
-      · have : (turn down (cl, z) me).1.hold = holdersAfter cl.hold me (passOf cl down me) := by
+      · have : (turn down mt (cl, z) me).1.hold = holdersAfter cl.hold me (passOf cl down mt me) := by
           simp only [turn, hs, if_false, Bool.false_eq_true]
         rw [this]
-        exact pass_keeps_covered cl hp down me v hv hc
-    have := ih (turn down (cl, z) me).1 hp' (turn down (cl, z) me).2 (by rw [tp.1, tp.2]; exact hv) (by rw [tp.2]; exact hc')
+        exact pass_keeps_covered cl hp down mt me v hv hc
+    have := ih (turn down mt (cl, z) me).1 hp' (turn down mt (cl, z) me).2 (by rw [tp.1, tp.2]; exact hv) (by rw [tp.2]; exact hc')
     rw [tp.1, tp.2] at this
     exact this
 
 /-- SAFETY of a cycle, for every order of turns and every set of nodes that are down. -/
-theorem round_keeps_covered (cl : Cluster) (hp : cl.Plain) (order down : List Nat)
+theorem round_keeps_covered (cl : Cluster) (hp : cl.Plain) (order down mt : List Nat)
     (v : List Nat × Nat) (hv : v ∈ effVectors { typ := cl.typ } cl.plc) (hc : Covered cl.typ cl.hold v) :
-    (round cl order down).1.Plain ∧ (round cl order down).1.plc = cl.plc ∧ (round cl order down).1.typ = cl.typ ∧
-      Covered cl.typ (round cl order down).1.hold v :=
-  turns_keep_covered down order cl hp _ v hv hc
+    (round cl order down mt).1.Plain ∧ (round cl order down mt).1.plc = cl.plc ∧ (round cl order down mt).1.typ = cl.typ ∧
+      Covered cl.typ (round cl order down mt).1.hold v :=
+  turns_keep_covered down mt order cl hp _ v hv hc
 
 /-- a history of cycles: each with its own order of turns and its own set of down nodes -/
-def rounds (cl : Cluster) : List (List Nat × List Nat) → Cluster
+def rounds (cl : Cluster) : List (List Nat × List Nat × List Nat) → Cluster
   | [] => cl
-  | r :: rs => rounds (round cl r.1 r.2).1 rs
+  | r :: rs => rounds (round cl r.1 r.2.1 r.2.2).1 rs
 
 /-- SAFETY for ever: through any number of cycles of any shape a covered rule stays covered — the number of
 holders never falls below the requirement through policer actions. -/
-theorem rounds_keep_covered (cl : Cluster) (hp : cl.Plain) (hist : List (List Nat × List Nat))
+theorem rounds_keep_covered (cl : Cluster) (hp : cl.Plain) (hist : List (List Nat × List Nat × List Nat))
     (v : List Nat × Nat) (hv : v ∈ effVectors { typ := cl.typ } cl.plc) (hc : Covered cl.typ cl.hold v) :
     Covered cl.typ (rounds cl hist).hold v := by
   induction hist generalizing cl with
   | nil => exact hc
   | cons r rs ih =>
-    obtain ⟨p1, p2, p3, p4⟩ := round_keeps_covered cl hp r.1 r.2 v hv hc
-    have := ih (round cl r.1 r.2).1 p1 (by rw [p2, p3]; exact hv) (by rw [p3]; exact p4)
+    obtain ⟨p1, p2, p3, p4⟩ := round_keeps_covered cl hp r.1 r.2.1 r.2.2 v hv hc
+    have := ih (round cl r.1 r.2.1 r.2.2).1 p1 (by rw [p2, p3]; exact hv) (by rw [p3]; exact p4)
     rw [p3] at this
     exact this
 
 /-! ## progress (containers with one REP rule) -/
 
-theorem clusterEnv_healthy (hold : List Nat) (me : Nat) : Healthy (clusterEnv [] hold me) :=
+theorem clusterEnv_healthy (hold : List Nat) (me : Nat) : Healthy (clusterEnv [] [] hold me) :=
   ⟨fun _ => rfl, fun n => by simp only [clusterEnv, List.contains_nil, Bool.false_eq_true, if_false]; split_ifs <;> simp,
     fun _ => by simp [clusterEnv], rfl⟩
 
@@ -151,19 +151,19 @@ required number of holders (list of distinct nodes, long enough for the rule). -
 theorem single_rule_pass_restores (cl : Cluster) (nodes : List Nat) (r : Nat)
     (hplc : cl.plc = { lists := [nodes], rep := [r] }) (nd : nodes.Nodup)
     (hs : startShortage cl.typ nodes r ≤ nodes.length) (me : Nat) (hme : me ∈ cl.hold) :
-    Covered cl.typ (holdersAfter cl.hold me (passOf cl [] me)) (nodes, r) := by
+    Covered cl.typ (holdersAfter cl.hold me (passOf cl [] [] me)) (nodes, r) := by
   have hp : cl.Plain := by unfold Cluster.Plain; rw [hplc]; exact ⟨rfl, rfl⟩
-  have hproc : passOf cl [] me = repPart (clusterEnv [] cl.hold me) false { typ := cl.typ } cl.plc [] :=
+  have hproc : passOf cl [] [] me = repPart (clusterEnv [] [] cl.hold me) false { typ := cl.typ } cl.plc [] :=
     processObject_rep _ _ _ _ hp.1 rfl hp.2
-  obtain ⟨D, dn, len, ok⟩ := processNodes_progress (clusterEnv [] cl.hold me) (clusterEnv_healthy _ _) cl.typ nodes nd r hs
-  have hrun : runVectors (clusterEnv [] cl.hold me) false cl.typ {} (effVectors { typ := cl.typ } cl.plc) =
-      processNodes (clusterEnv [] cl.hold me) false cl.typ {} nodes r := by
+  obtain ⟨D, dn, len, ok⟩ := processNodes_progress (clusterEnv [] [] cl.hold me) (clusterEnv_healthy _ _) cl.typ nodes nd r hs
+  have hrun : runVectors (clusterEnv [] [] cl.hold me) false cl.typ {} (effVectors { typ := cl.typ } cl.plc) =
+      processNodes (clusterEnv [] [] cl.hold me) false cl.typ {} nodes r := by
     rw [hplc]; rfl
   refine ⟨D, dn, len, fun n hn => ⟨(ok n hn).1, ?_⟩⟩
   rw [mem_holdersAfter, hproc]
   unfold repPart verdict
   rw [hrun]
-  generalize processNodes (clusterEnv [] cl.hold me) false cl.typ {} nodes r = cf at ok
+  generalize processNodes (clusterEnv [] [] cl.hold me) false cl.typ {} nodes r = cf at ok
   rcases (ok n hn).2 with ⟨hme', hneed⟩ | ⟨hne, hh | ⟨t, ht, hd⟩⟩
   · subst hme'
     refine ⟨Or.inr hme, Or.inl ?_⟩
@@ -182,7 +182,7 @@ holder takes a turn the rule has its required number of holders … -/
 theorem single_rule_round_converges (nodes : List Nat) (r : Nat) (nd : nodes.Nodup) (order : List Nat) (cl : Cluster)
     (hplc : cl.plc = { lists := [nodes], rep := [r] })
     (hs : startShortage cl.typ nodes r ≤ nodes.length) (hm : ∃ m ∈ order, m ∈ cl.hold) :
-    Covered cl.typ (round cl order []).1.hold (nodes, r) := by
+    Covered cl.typ (round cl order [] []).1.hold (nodes, r) := by
   have hp : cl.Plain := by unfold Cluster.Plain; rw [hplc]; exact ⟨rfl, rfl⟩
   have hv : (nodes, r) ∈ effVectors { typ := cl.typ } cl.plc := by rw [hplc]; simp [effVectors]
   unfold round
@@ -193,19 +193,19 @@ theorem single_rule_round_converges (nodes : List Nat) (r : Nat) (nd : nodes.Nod
     simp only [List.foldl_cons]
     by_cases ha : a ∈ cl.hold
     · -- the first holder of the order takes its turn on the initial state
-      have hskip : ¬ (!cl.hold.contains a || ([] : List Nat).contains a) = true := by simp [ha]
-      have hturn : (turn [] (cl, z) a).1 = { cl with hold := holdersAfter cl.hold a (passOf cl [] a) } := by
+      have hskip : ¬ (!cl.hold.contains a || ([] : List Nat).contains a || ([] : List Nat).contains a) = true := by simp [ha]
+      have hturn : (turn [] [] (cl, z) a).1 = { cl with hold := holdersAfter cl.hold a (passOf cl [] [] a) } := by
         simp only [turn, hskip, if_false, Bool.false_eq_true]
       have hc := single_rule_pass_restores cl nodes r hplc nd hs a ha
-      have tp := turn_plc [] (cl, z) a
-      have hp' : (turn [] (cl, z) a).1.Plain := by unfold Cluster.Plain; rw [tp.1]; exact hp
-      have := turns_keep_covered [] rest (turn [] (cl, z) a).1 hp' (turn [] (cl, z) a).2 (nodes, r)
+      have tp := turn_plc [] [] (cl, z) a
+      have hp' : (turn [] [] (cl, z) a).1.Plain := by unfold Cluster.Plain; rw [tp.1]; exact hp
+      have := turns_keep_covered [] [] rest (turn [] [] (cl, z) a).1 hp' (turn [] [] (cl, z) a).2 (nodes, r)
         (by rw [tp.1, tp.2]; exact hv) (by rw [tp.2, hturn]; exact hc)
       rw [tp.2] at this
       exact this.2.2.2
     · -- a node without the object does nothing
-      have hskip : (!cl.hold.contains a || ([] : List Nat).contains a) = true := by simp [ha]
-      have hturn : turn [] (cl, z) a = (cl, z) := by simp only [turn, hskip, if_true]
+      have hskip : (!cl.hold.contains a || ([] : List Nat).contains a || ([] : List Nat).contains a) = true := by simp [ha]
+      have hturn : turn [] [] (cl, z) a = (cl, z) := by simp only [turn, hskip, if_true]
       rw [hturn]
       apply ih
       obtain ⟨m, hm1, hm2⟩ := hm
@@ -213,30 +213,30 @@ theorem single_rule_round_converges (nodes : List Nat) (r : Nat) (nd : nodes.Nod
       · exact absurd hm2 ha
       · exact ⟨m, h, hm2⟩
 
-theorem round_plc (cl : Cluster) (order down : List Nat) :
-    (round cl order down).1.plc = cl.plc ∧ (round cl order down).1.typ = cl.typ := by
+theorem round_plc (cl : Cluster) (order down mt : List Nat) :
+    (round cl order down mt).1.plc = cl.plc ∧ (round cl order down mt).1.typ = cl.typ := by
   unfold round
   generalize (0, ([] : List Nat)) = z
   induction order generalizing cl z with
   | nil => exact ⟨rfl, rfl⟩
   | cons a rest ih =>
     simp only [List.foldl_cons]
-    have tp := turn_plc down (cl, z) a
-    have := ih (turn down (cl, z) a).1 (turn down (cl, z) a).2
+    have tp := turn_plc down mt (cl, z) a
+    have := ih (turn down mt (cl, z) a).1 (turn down mt (cl, z) a).2
     exact ⟨this.1.trans tp.1, this.2.trans tp.2⟩
 
 /-- … and keeps them through every later cycle, whatever orders are used and whatever nodes go down then. -/
 theorem single_rule_converges (nodes : List Nat) (r : Nat) (nd : nodes.Nodup) (order : List Nat) (cl : Cluster)
     (hplc : cl.plc = { lists := [nodes], rep := [r] })
     (hs : startShortage cl.typ nodes r ≤ nodes.length) (hm : ∃ m ∈ order, m ∈ cl.hold)
-    (later : List (List Nat × List Nat)) :
-    Covered cl.typ (rounds cl ((order, []) :: later)).hold (nodes, r) := by
+    (later : List (List Nat × List Nat × List Nat)) :
+    Covered cl.typ (rounds cl ((order, [], []) :: later)).hold (nodes, r) := by
   have hp : cl.Plain := by unfold Cluster.Plain; rw [hplc]; exact ⟨rfl, rfl⟩
   have hv : (nodes, r) ∈ effVectors { typ := cl.typ } cl.plc := by rw [hplc]; simp [effVectors]
   have h1 := single_rule_round_converges nodes r nd order cl hplc hs hm
-  obtain ⟨q1, q2⟩ := round_plc cl order []
-  have hp1 : (round cl order []).1.Plain := by unfold Cluster.Plain; rw [q1]; exact hp
-  have := rounds_keep_covered (round cl order []).1 hp1 later (nodes, r) (by rw [q1, q2]; exact hv) (by rw [q2]; exact h1)
+  obtain ⟨q1, q2⟩ := round_plc cl order [] []
+  have hp1 : (round cl order [] []).1.Plain := by unfold Cluster.Plain; rw [q1]; exact hp
+  have := rounds_keep_covered (round cl order [] []).1 hp1 later (nodes, r) (by rw [q1, q2]; exact hv) (by rw [q2]; exact h1)
   rw [q2] at this
   exact this
 
@@ -247,16 +247,16 @@ def C27_full : Prop :=
     (∀ v ∈ effVectors { typ := cl.typ } cl.plc, v.1.Nodup ∧ startShortage cl.typ v.1 v.2 ≤ v.1.length) →
     ∀ o1 o2 : List Nat, (∀ n ∈ cl.hold, n ∈ o1 ∧ n ∈ o2) → (∀ v ∈ effVectors { typ := cl.typ } cl.plc, ∀ n ∈ v.1, n ∈ o1 ∧ n ∈ o2) →
       ∀ v ∈ effVectors { typ := cl.typ } cl.plc,
-        ∀ n ∈ v.1.take (startShortage cl.typ v.1 v.2), n ∈ (rounds cl [(o1, []), (o2, [])]).hold
+        ∀ n ∈ v.1.take (startShortage cl.typ v.1 v.2), n ∈ (rounds cl [(o1, [], []), (o2, [], [])]).hold
 
 /-- non-vacuity: REP 2 over `[1,2,3,4]` held by the backup nodes 3 and 4: the first cycle copies the object to the
 primary nodes 1 and 2 (one task) and node 4 drops its copy, the second cycle only removes the copy of node 3, the
 third does nothing -/
 example :
     let c0 : Cluster := { plc := { lists := [[1, 2, 3, 4]], rep := [2] }, hold := [3, 4] }
-    let r1 := round c0 [1, 2, 3, 4] []
-    let r2 := round r1.1 [1, 2, 3, 4] []
-    let r3 := round r2.1 [1, 2, 3, 4] []
+    let r1 := round c0 [1, 2, 3, 4] [] []
+    let r2 := round r1.1 [1, 2, 3, 4] [] []
+    let r3 := round r2.1 [1, 2, 3, 4] [] []
     (r1.1.hold, r1.2) = ([1, 2, 3], 1, [4]) ∧ (r2.1.hold, r2.2) = ([1, 2], 0, [3]) ∧ (r3.1.hold, r3.2) = ([1, 2], 0, []) := by
   decide
 
